@@ -61,6 +61,21 @@ impl<E: Edge, N: InnerNode<E>> DiagramRules<E, N, ZBDDTerminal> for ZBDDRules {
     fn cofactors(_tag: E::Tag, node: &N) -> Self::Cofactors<'_> {
         node.children()
     }
+
+    #[inline]
+    fn skipped_cofactor<M: Manager<Edge = E, InnerNode = N, Terminal = ZBDDTerminal>>(
+        manager: &M,
+        edge: &E,
+        n: usize,
+    ) -> E {
+        if n == HI {
+            // The variable of a skipped level does not occur in any of the
+            // sets. (Static terminals: `get_terminal()` cannot fail.)
+            manager.get_terminal(ZBDDTerminal::Empty).unwrap()
+        } else {
+            manager.clone_edge(edge)
+        }
+    }
 }
 
 #[inline(always)]
